@@ -1,6 +1,8 @@
-(* Proofs/MapIndexedDriver.v — ordered_map_valid_indexed_stream (repaired code) = indexed_spec
-   for every marker, chunk size and value factor, provided every mapped entry fits the value
-   buffer; with the fuel bound. *)
+(* Proofs/MapIndexedDriver.v — ordered_map_valid_indexed_stream (repaired code, version Fixed,
+   including fix-F-C02f) = indexed_spec for every marker, chunk size and value factor and EVERY map
+   whose valid entries are in range (no order required), provided every mapped entry fits the value
+   buffer; with the fuel bound 2*|map|+2 (every map entry costs at most one kernel call that
+   consumes it and one that asks for its value sub-chunk). *)
 From Coq Require Import ZArith List Lia Bool.
 From EV Require Import Res Arr MapStream MapStreamSpec MapStreamBase MapIndexedBase MapIndexedKernel.
 Import ListNotations.
@@ -61,8 +63,6 @@ Variables (map_ : list Z) (sm_start sm_end first last : Z).
 Hypothesis Hrange : 0 <= sm_start /\ sm_start < sm_end /\ sm_end <= len map_ /\ sm_end - sm_start <= cs.
 Hypothesis Hfl : 0 <= first /\ first <= last /\ last < n.
 Hypothesis Hin : forall t, sm_start <= t < sm_end -> nthZ map_ t <> inv -> first <= nthZ map_ t <= last.
-Hypothesis Hmono : forall t u, sm_start <= t -> t <= u -> u < sm_end ->
-                     nthZ map_ t <> inv -> nthZ map_ u <> inv -> nthZ map_ t <= nthZ map_ u.
 Hypothesis Hfit : forall t, sm_start <= t < sm_end -> nthZ map_ t <> inv -> len (sval (nthZ map_ t)) <= B.
 Let indices_ := slice d_idx first (last + 2).
 Variable subs : list (Z * Z).
@@ -90,11 +90,68 @@ Proof.
   rewrite np_slice_slice by lia. reflexivity.
 Qed.
 
+(* ---- seeking the value sub-chunk that holds entry i (fix-F-C02f) ---- *)
+Lemma seek_up_spec i fuel : forall s,
+  0 <= i < last - first + 1 -> 0 <= s < len subs -> (Z.to_nat (len subs - s) <= fuel)%nat ->
+  exists s1, seek_up fuel subs i s = Ok s1 /\ s <= s1 < len subs /\ i < snd (nthd (0,0) subs s1).
+Proof.
+  induction fuel as [|f IH]; intros s Hi Hs Hf; [lia|].
+  cbn [seek_up]. unfold list_get. rewrite (np_get_ok (0,0) subs s) by lia. cbn [bind].
+  pose proof (chain_nth subs 0 (last - first + 1) s Hchain Hs) as HC. cbv zeta in HC.
+  destruct HC as [C1 [C2 [C3 [C4 [C5 C6]]]]].
+  destruct (i >=? snd (nthd (0,0) subs s)) eqn:E.
+  - assert (Hn : s + 1 < len subs).
+    { destruct (Z_lt_dec (s + 1) (len subs)) as [|Hge]; [assumption|]. exfalso.
+      assert (snd (nthd (0,0) subs s) = last - first + 1) by (apply C5; lia). lia. }
+    destruct (IH (s + 1) Hi ltac:(lia) ltac:(lia)) as [s1 [H1 [H2 H3]]].
+    exists s1. split; [exact H1|]. split; [lia|exact H3].
+  - exists s. split; [reflexivity|]. split; lia.
+Qed.
+
+Lemma seek_down_spec i fuel : forall s,
+  0 <= i -> 0 <= s < len subs -> i < snd (nthd (0,0) subs s) -> (Z.to_nat s < fuel)%nat ->
+  exists s2, seek_down fuel subs i s = Ok s2 /\ 0 <= s2 < len subs /\
+             fst (nthd (0,0) subs s2) <= i < snd (nthd (0,0) subs s2).
+Proof.
+  induction fuel as [|f IH]; intros s Hi Hs Hlt Hf; [lia|].
+  cbn [seek_down]. unfold list_get. rewrite (np_get_ok (0,0) subs s) by lia. cbn [bind].
+  pose proof (chain_nth subs 0 (last - first + 1) s Hchain Hs) as HC. cbv zeta in HC.
+  destruct HC as [C1 [C2 [C3 [C4 [C5 C6]]]]].
+  destruct (i <? fst (nthd (0,0) subs s)) eqn:E.
+  - assert (Hs0 : s <> 0) by (intros ->; specialize (C6 eq_refl); lia).
+    pose proof (chain_nth subs 0 (last - first + 1) (s - 1) Hchain ltac:(lia)) as HD. cbv zeta in HD.
+    destruct HD as [_ [_ [_ [D4 _]]]]. replace (s - 1 + 1) with s in D4 by lia. specialize (D4 ltac:(lia)).
+    destruct (IH (s - 1) Hi ltac:(lia) ltac:(lia) ltac:(lia)) as [s2 [H1 [H2 H3]]].
+    exists s2. split; [exact H1|]. split; [lia|exact H3].
+  - exists s. split; [reflexivity|]. split; lia.
+Qed.
+
+Lemma seek_subchunk_spec sm s :
+  sm_start <= sm < sm_end -> nthZ map_ sm <> inv -> 0 <= s < len subs ->
+  exists s2, seek_subchunk subs map_ sm first s = Ok s2 /\ 0 <= s2 < len subs /\
+             fst (nthd (0,0) subs s2) <= nthZ map_ sm - first < snd (nthd (0,0) subs s2).
+Proof.
+  intros Hsm Hne Hs. unfold seek_subchunk.
+  rewrite (np_get_ok 0 map_ sm) by lia. cbn [bind]. fold (nthZ map_ sm).
+  pose proof (Hin sm Hsm Hne) as Hb.
+  pose proof (len_nonneg subs) as Hl0.
+  destruct (seek_up_spec (nthZ map_ sm - first) (S (length subs)) s) as [s1 [H1 [H2 H3]]]; try lia.
+  { unfold len in *. lia. }
+  rewrite H1. cbn [bind].
+  apply seek_down_spec; try lia. unfold len in *. lia.
+Qed.
+
+(* 1 when the entry at sm is valid and lies outside value sub-chunk s (the next kernel call only
+   asks for another sub-chunk), else 0 *)
+Definition needs_switch (s sm:Z) : Z :=
+  if (sm <? sm_end) && negb (nthZ map_ sm =? inv) &&
+     negb ((fst (nthd (0,0) subs s) <=? nthZ map_ sm - first) && (nthZ map_ sm - first <? snd (nthd (0,0) subs s)))
+  then 1 else 0.
+
 Lemma isub_loop_spec fuel : forall s sm acc ridx rval out_i out_v,
   0 <= s < len subs -> sm_start <= sm <= sm_end ->
   len ridx = cs -> len rval = B ->
-  (forall t, sm <= t < sm_end -> nthZ map_ t <> inv -> fst (nthd (0,0) subs s) <= nthZ map_ t - first) ->
-  (Z.to_nat ((sm_end - sm) + (len subs - 1 - s)) < fuel)%nat ->
+  (Z.to_nat (2 * (sm_end - sm) + needs_switch s sm) < fuel)%nat ->
   let sc := nthd (0,0) subs s in
   let es := map sval (slice map_ sm sm_end) in
   exists ridx' rval',
@@ -103,25 +160,25 @@ Lemma isub_loop_spec fuel : forall s sm acc ridx rval out_i out_v,
     = Ok (mk_ist 0 0 (acc + total es) ridx' rval' (out_i ++ offs_tail acc es) (out_v ++ concat es)) /\
     len ridx' = cs /\ len rval' = B.
 Proof.
-  induction fuel as [|f IH]; intros s sm acc ridx rval out_i out_v Hs Hsm Hlri Hlrv Hinv Hf; [lia|].
+  induction fuel as [|f IH]; intros s sm acc ridx rval out_i out_v Hs Hsm Hlri Hlrv Hf; [lia|].
   cbv zeta. remember (nthd (0,0) subs s) as sc eqn:Hsc. set (es := map sval (slice map_ sm sm_end)).
   cbn [isub_loop].
   destruct (sm <? sm_end) eqn:E.
   2:{ exists ridx, rval. subst es. replace sm with sm_end by lia. rewrite slice_empty. cbn [map offs_tail concat].
       rewrite total_nil, Z.add_0_r, !app_nil_r. repeat split; assumption. }
-  cbn [s_ridx s_rval s_ri s_rv s_acc s_out_i s_out_v].
+  cbn [s_ridx s_rval s_ri s_rv s_acc s_out_i s_out_v span_kernels].
   pose proof (chain_nth subs 0 (last - first + 1) s Hchain Hs) as HC. cbv zeta in HC.
   rewrite <- Hsc in HC.
   destruct HC as [C1 [C2 [C3 [C4 [C5 C6]]]]].
   unfold ordered_map_valid_indexed_partial.
   rewrite (getZ_ok 130 indices_ (fst sc)) by (rewrite len_indices_; lia). cbn [bind].
   (* the kernel call *)
-  destruct (oi_partial_loop_spec d_idx d_val inv map_ sm_end indices_ (snd sc) (window sc) first
+  destruct (oi_partial_loop_spec d_idx d_val inv true map_ sm_end indices_ (fst sc) (snd sc) (window sc) first
               (nthZ indices_ (fst sc)) (S (Z.to_nat (sm_end - sm))) sm 0 0 acc false ridx rval)
     as [j [need' [ridx1 [rval1 HK]]]]; try lia.
   { (* window_ok *)
-    intros t Ht Hne. unfold window_ok. intros Hlt.
-    pose proof (Hin t ltac:(lia) Hne) as Hb. pose proof (Hinv t Ht Hne) as Hlo.
+    intros t Ht Hne. unfold window_ok. intros Hlo Hlt. specialize (Hlo eq_refl).
+    pose proof (Hin t ltac:(lia) Hne) as Hb.
     set (i := nthZ map_ t - first) in *.
     rewrite len_indices_. rewrite !nth_indices_ by lia.
     pose proof (idx_mono (first + fst sc) (first + i) ltac:(lia) ltac:(lia) ltac:(lia)).
@@ -158,43 +215,57 @@ Proof.
   assert (Hsplit : es = es1 ++ map sval (slice map_ j sm_end)).
   { subst es es1. rewrite <- map_app. f_equal. apply slice_snoc; lia. }
   assert (Hgoal : forall s' ,
-             0 <= s' < len subs -> s <= s' ->
-             (forall t, j <= t < sm_end -> nthZ map_ t <> inv -> fst (nthd (0,0) subs s') <= nthZ map_ t - first) ->
-             (sm < j \/ s < s') ->
+             0 <= s' < len subs ->
+             (Z.to_nat (2 * (sm_end - j) + needs_switch s' j) < f)%nat ->
              exists ridx' rval',
                isub_loop f Fixed map_ sm_start sm_end indices_ subs d_val first inv s'
                          (nthd (0,0) subs s') (window (nthd (0,0) subs s')) j
                          (mk_ist 0 0 (acc + total es1) ridx1 rval1 (out_i ++ offs_tail acc es1) (out_v ++ concat es1))
                = Ok (mk_ist 0 0 (acc + total es) ridx' rval' (out_i ++ offs_tail acc es) (out_v ++ concat es)) /\
                len ridx' = cs /\ len rval' = B).
-  { intros s' Hs' Hss' Hinv' Hprog.
+  { intros s' Hs' Hmeas.
     destruct (IH s' j (acc + total es1) ridx1 rval1 (out_i ++ offs_tail acc es1) (out_v ++ concat es1))
       as [ridx' [rval' [I1 [I2 I3]]]]; try lia; try assumption.
     exists ridx', rval'. cbv zeta in I1. rewrite I1. split; [|split; assumption].
     rewrite Hsplit. rewrite total_app, offs_tail_app, concat_app, <- !app_assoc.
     f_equal. f_equal. lia. }
-  destruct K8 as [[Kj Kn]|[Kj [Kne [[Kmax Kn]|[Kmax [Kn Kfull]]]]]].
+  assert (Hns01 : forall a b, 0 <= needs_switch a b <= 1).
+  { intros a b. unfold needs_switch. destruct (_ && _ && _); lia. }
+  destruct K8 as [[Kj Kn]|[Kj [Kne [[Kout Kn]|[Klo [Kmax [Kn Kfull]]]]]]].
   - (* the call consumed the whole sub-chunk *)
     subst need'. replace ((j =? sm) && negb false) with false by lia.
     cbn [bind]. rewrite Hflush_i, Hflush_v.
     rewrite Hsc. apply (Hgoal s); try lia.
-  - (* a new value sub-chunk is needed *)
+    pose proof (Hns01 s j). pose proof (Hns01 s sm).
+    assert (needs_switch s j = 0) by (unfold needs_switch; replace (j <? sm_end) with false by lia; reflexivity).
+    lia.
+  - (* another value sub-chunk is needed: seek the one that holds the entry *)
     subst need'. rewrite andb_false_r. cbn [negb].
-    assert (Hnext : s + 1 < len subs).
-    { destruct (Z_lt_dec (s + 1) (len subs)) as [|Hge]; [assumption|]. exfalso.
-      assert (Hl : snd sc = last - first + 1) by (apply C5; lia).
-      pose proof (Hin j ltac:(lia) Kne). lia. }
-    specialize (C4 Hnext).
-    pose proof (chain_nth subs 0 (last - first + 1) (s + 1) Hchain ltac:(lia)) as HD. cbv zeta in HD.
+    destruct (seek_subchunk_spec j s ltac:(lia) Kne Hs) as [s2 [S1 [S2 S3]]].
+    rewrite S1. cbn [bind].
+    pose proof (chain_nth subs 0 (last - first + 1) s2 Hchain S2) as HD. cbv zeta in HD.
     destruct HD as [D1 [D2 [D3 _]]].
-    unfold list_get. rewrite (np_get_ok (0,0) subs (s + 1)) by lia. cbn [bind].
+    unfold list_get. rewrite (np_get_ok (0,0) subs s2) by lia. cbn [bind].
     rewrite fetch_values_ok by lia. cbn [bind].
     rewrite Hflush_i, Hflush_v.
-    apply (Hgoal (s + 1)); try lia.
-    intros t Ht Hne. rewrite C4.
-    pose proof (Hmono j t ltac:(lia) ltac:(lia) ltac:(lia) Kne Hne). lia.
+    apply (Hgoal s2); try lia.
+    assert (N2 : needs_switch s2 j = 0).
+    { unfold needs_switch.
+      replace ((fst (nthd (0,0) subs s2) <=? nthZ map_ j - first) && (nthZ map_ j - first <? snd (nthd (0,0) subs s2)))
+        with true by lia.
+      cbn [negb]. rewrite andb_false_r. reflexivity. }
+    rewrite N2.
+    destruct (Z.eq_dec j sm) as [->|Hjs].
+    + assert (N1 : needs_switch s sm = 1).
+      { unfold needs_switch. rewrite <- Hsc.
+        replace (sm <? sm_end) with true by lia. replace (nthZ map_ sm =? inv) with false by lia.
+        replace ((fst sc <=? nthZ map_ sm - first) && (nthZ map_ sm - first <? snd sc)) with false
+          by (destruct Kout as [?|[_ ?]]; lia).
+        reflexivity. }
+      lia.
+    + pose proof (Hns01 s sm). lia.
   - (* the value buffer is full: flush and call again *)
-    subst need'.
+    subst need'. specialize (Klo eq_refl).
     assert (Hj : sm < j).
     { destruct (Z_lt_dec sm j) as [|Hge]; [assumption|]. exfalso.
       assert (j = sm) by lia. subst j.
@@ -202,7 +273,12 @@ Proof.
       pose proof (Hfit sm ltac:(lia) Kne). lia. }
     replace ((j =? sm) && negb false) with false by lia.
     cbn [bind]. rewrite Hflush_i, Hflush_v.
-    rewrite Hsc. apply (Hgoal s); try lia. intros t Ht Hne. rewrite <- Hsc. apply Hinv; [lia|exact Hne].
+    rewrite Hsc. apply (Hgoal s); try lia.
+    assert (N2 : needs_switch s j = 0).
+    { unfold needs_switch. rewrite <- Hsc.
+      replace ((fst sc <=? nthZ map_ j - first) && (nthZ map_ j - first <? snd sc)) with true by lia.
+      cbn [negb]. rewrite andb_false_r. reflexivity. }
+    pose proof (Hns01 s sm). lia.
 Qed.
 
 End Sub.
@@ -220,19 +296,20 @@ Definition fits (map_:list Z) : Prop :=
   forall t, 0 <= t < len map_ -> nthZ map_ t <> inv -> len (sval (nthZ map_ t)) <= B.
 
 Lemma istream_subchunk_spec kfuel map_ s e acc ridx rval out_i out_v :
-  valid_map n inv map_ -> fits map_ ->
+  in_range_map n inv map_ -> fits map_ ->
   0 <= s -> s < e -> e <= len map_ -> e - s <= cs ->
   len ridx = cs -> len rval = B ->
-  (Z.to_nat (e - s + len d_idx) < kfuel)%nat ->
+  (Z.to_nat (2 * (e - s) + 1) < kfuel)%nat ->
   let es := map sval (slice map_ s e) in
   exists ridx' rval',
     istream_subchunk kfuel Fixed d_idx d_val map_ inv cs vf (mk_ist 0 0 acc ridx rval out_i out_v) (s, e)
     = Ok (mk_ist 0 0 (acc + total es) ridx' rval' (out_i ++ offs_tail acc es) (out_v ++ concat es)) /\
     len ridx' = cs /\ len rval' = B.
 Proof.
-  intros [Hrange Hmono] Hfit Hs Hse He Hcsz Hlri Hlrv Hk es.
-  unfold istream_subchunk. cbn [fst snd s_acc s_ridx s_rval s_ri s_rv s_out_i s_out_v].
-  destruct (gve_spec map_ s e inv) as [[Ha Hg]|[i0 [j0 [H1 [H2 [H3 [Ha1 [Ha2 [Hn1 [Hn2 Hg]]]]]]]]]]; try lia.
+  intros Hrange Hfit Hs Hse He Hcsz Hlri Hlrv Hk es.
+  unfold istream_subchunk, get_valid_value_extents_v, span_kernels.
+  cbn [fst snd s_acc s_ridx s_rval s_ri s_rv s_out_i s_out_v].
+  destruct (gve2_spec map_ s e inv) as [[Ha Hg]|[i0 [j0 [H1 [H2 [Hn1 [Hn2 [Hb Hg]]]]]]]]; try lia.
   - (* no valid entry: the current offset repeated *)
     rewrite Hg. cbn [bind]. rewrite Z.eqb_refl.
     assert (Hall : forall x, In x es -> x = []).
@@ -262,15 +339,9 @@ Proof.
     set (first := nthZ map_ i0). set (last := nthZ map_ j0).
     pose proof (Hrange i0 ltac:(lia) Hn1) as Hr1. fold first in Hr1.
     pose proof (Hrange j0 ltac:(lia) Hn2) as Hr2. fold last in Hr2.
-    pose proof (Hmono i0 j0 ltac:(lia) ltac:(lia) ltac:(lia) Hn1 Hn2) as Hm12. fold first last in Hm12.
+    pose proof (Hb i0 ltac:(lia) Hn1) as Hm12. fold first last in Hm12.
     assert (Hin : forall t, s <= t < e -> nthZ map_ t <> inv -> first <= nthZ map_ t <= last).
-    { intros t Ht Hne.
-      assert (Hi0 : i0 <= t).
-      { destruct (Z_lt_dec t i0) as [Hlt|]; [|lia]. exfalso. apply Hne. apply Ha1. lia. }
-      assert (Hj0 : t <= j0).
-      { destruct (Z_lt_dec j0 t) as [Hlt|]; [|lia]. exfalso. apply Hne. apply Ha2. lia. }
-      pose proof (Hmono i0 t ltac:(lia) ltac:(lia) ltac:(lia) Hn1 Hne).
-      pose proof (Hmono t j0 ltac:(lia) ltac:(lia) ltac:(lia) Hne Hn2). unfold first, last. lia. }
+    { intros t Ht Hne. unfold first, last. apply Hb; assumption. }
     unfold n in *.
     rewrite np_slice_slice by lia.
     unfold calculate_chunk_decomposition.
@@ -285,15 +356,16 @@ Proof.
     destruct (isub_loop_spec map_ s e first last) with (subs := subs) (fuel := kfuel) (s := 0) (sm := s)
       (acc := acc) (ridx := ridx) (rval := rval) (out_i := out_i) (out_v := out_v)
       as [ridx' [rval' [I1 [I2 I3]]]]; try (unfold n; lia); try assumption.
-    { intros t u Ht Htu Hu. apply Hmono; lia. }
     { intros t Ht Hne. apply Hfit; [lia|exact Hne]. }
-    { intros t Ht Hne. rewrite C6. pose proof (Hin t Ht Hne). lia. }
+    { assert (Hn01 : 0 <= needs_switch map_ e first subs 0 s <= 1)
+        by (unfold needs_switch; destruct (_ && _ && _); lia).
+      lia. }
     cbv zeta in I1. exists ridx', rval'. split; [exact I1|split; assumption].
 Qed.
 
 (* ---------------- all sub-chunks of one map chunk ---------------- *)
-Lemma istream_fold_spec kfuel map_ : valid_map n inv map_ -> fits map_ -> len map_ <= cs ->
-  (Z.to_nat (len map_ + len d_idx) < kfuel)%nat ->
+Lemma istream_fold_spec kfuel map_ : in_range_map n inv map_ -> fits map_ -> len map_ <= cs ->
+  (Z.to_nat (2 * len map_ + 1) < kfuel)%nat ->
   forall subs a acc ridx rval out_i out_v, chain subs a (len map_) -> 0 <= a ->
   len ridx = cs -> len rval = B ->
   let es := map sval (slice map_ a (len map_)) in
@@ -326,8 +398,8 @@ Proof.
   rewrite nthd_slice in * by lia. apply Hf; [lia|exact Hne].
 Qed.
 
-Lemma istream_loop_spec mapf kfuel : valid_map n inv mapf -> fits mapf ->
-  (Z.to_nat (len mapf + len d_idx) < kfuel)%nat ->
+Lemma istream_loop_spec mapf kfuel : in_range_map n inv mapf -> fits mapf ->
+  (Z.to_nat (2 * len mapf + 1) < kfuel)%nat ->
   forall fuel m_off acc ridx rval out_i out_v,
   0 <= m_off <= len mapf -> len ridx = cs -> len rval = B ->
   (Z.to_nat (len mapf - m_off) < fuel)%nat ->
@@ -344,7 +416,7 @@ Proof.
   - assert (He : m_off < e <= len mapf) by lia.
     set (map_ := slice mapf m_off e).
     assert (Hlm : len map_ = e - m_off) by (apply len_slice; lia).
-    assert (Hvm : valid_map n inv map_) by (apply valid_map_slice; try lia; exact Hv).
+    assert (Hvm : in_range_map n inv map_) by (apply in_range_map_slice; try lia; exact Hv).
     assert (Hfm : fits map_) by (apply fits_slice; try lia; exact Hfit).
     unfold get_map_subchunks.
     destruct (subchunks_loop_chain kfuel Fixed map_ inv cs 0) as [subs [Hs Hc]]; try lia.
@@ -375,9 +447,9 @@ Proof.
   f_equal. lia.
 Qed.
 
-Lemma map_sval_spec m : valid_map n inv m -> map sval m = map_spec [] (decode d_idx d_val) inv m.
+Lemma map_sval_spec m : in_range_map n inv m -> map sval m = map_spec [] (decode d_idx d_val) inv m.
 Proof.
-  intros [Hr _]. unfold map_spec. apply (list_eq_nthd []).
+  intros Hr. unfold map_spec. apply (list_eq_nthd []).
   - rewrite !len_map. reflexivity.
   - intros i Hi. rewrite len_map in Hi. rewrite (nthd_map sval 0 []) by lia.
     rewrite (nthd_map (fun k => if k =? inv then [] else nthd [] (decode d_idx d_val) k) 0 []) by lia.
@@ -386,7 +458,7 @@ Proof.
 Qed.
 
 Theorem indexed_stream_correct_gen (m:list Z) (fuel:nat) :
-  valid_map n inv m -> fits m -> (fuel >= length m + length d_idx + 1)%nat ->
+  in_range_map n inv m -> fits m -> (fuel >= 2 * length m + 2)%nat ->
   ordered_map_valid_indexed_stream fuel Fixed d_idx d_val m inv cs vf = Ok (indexed_spec d_idx d_val inv m).
 Proof.
   intros Hv Hfit Hf. unfold ordered_map_valid_indexed_stream.
@@ -414,8 +486,8 @@ Definition entries_fit (d_idx d_val:list Z) (inv:Z) (m:list Z) (bytes:Z) : Prop 
 
 Theorem indexed_stream_correct_top (d_idx d_val:list Z) (inv:Z) (m:list Z) (cs vf:Z) (fuel:nat) :
   wf_indexed d_idx d_val -> 1 <= cs -> 0 <= vf ->
-  valid_map (len d_idx - 1) inv m -> entries_fit d_idx d_val inv m (cs * vf) ->
-  (fuel >= length m + length d_idx + 1)%nat ->
+  in_range_map (len d_idx - 1) inv m -> entries_fit d_idx d_val inv m (cs * vf) ->
+  (fuel >= 2 * length m + 2)%nat ->
   ordered_map_valid_indexed_stream fuel Fixed d_idx d_val m inv cs vf = Ok (indexed_spec d_idx d_val inv m).
 Proof.
   intros Hwf Hcs Hvf Hv Hfit Hf.
